@@ -28,8 +28,7 @@ var _ = vp.Reg("IndirectTwin", H_IndirectTwin)
 // source-over.
 func H_DrawOp() {
 	dst := image.NewRGBA(image.Rect(0, 0, 4, 4))
-	var z vec.Rasterizer
-	z.Dst = dst
+	z := vec.NewRasterizer(dst)
 	op := draw.Op(vp.Choice("op", 2)) // Over, Src
 	z.DrawOp = op
 	src := image.NewUniform(color.RGBA{0x10, 0x20, 0x30, 0xff})
